@@ -235,7 +235,7 @@ fire("C10", L, "                if is_linetable and line_offset is not None:\n  
 fire("C10", L, "            # A range without a line is continued without a line, not with a 0\n            and prev_item.line_offset is not None\n", "", "the original defect: (n, 0) merged into a no-line entry (R10.1)")
 fire("C14", I, "                    and arg not in seen\n                ):\n                    seen.add(arg)", "                    and arg.constant not in seen\n                ):\n                    seen.add(arg.constant)", "the once-only set keyed by value (R14.4)")
 M.append(dict(kind="fire", pid="C11", file=B, old="            unit_line = line_mapping.offset_to_line.pop(i, instruction.line_number)\n", new="            line_mapping.offset_to_line.pop(i, None)\n            unit_line = instruction.line_number\n", why="later units' lines dropped silently (R11.L)"))
-fire("C12", "code_data/_constants.py", "    if isinstance(value, tuple):\n        return tuple(map(from_constant, value))\n    return value", "    return value", "the argument's own tuples handed to CodeType (R12.8)")
+fire("C12", "code_data/_constants.py", "    if isinstance(value, tuple):\n        return tuple(map(from_constant, value))\n", "", "the argument's own tuples handed to CodeType (R12.8)")
 fire("C16", CLI, "        code = compile(file.read_bytes(), str(file), \"exec\")", "        code = compile(file.read_text(), str(file), \"exec\")", "the original defect: file decoded before compiling (R16.6)")
 fire("C07", J, "        return Name(**{**value, \"name\": string_from_json(value[\"name\"])})", "        return Name(**value)", "the original defect: tagged name stored as a dict (R07.2)")
 fire("C08", "code_data/_constants.py", "        return frozenset(Counter(map(constant_key, value)).items())", "        return frozenset(map(constant_key, value))", "the original defect: multiplicity of equal keys lost (R08.4)")
@@ -282,3 +282,6 @@ fire("C06", J, "        value = copy(value)\n        if isinstance(value[\"const
 fire("C05", N, "    if isinstance(x, (Name, Varname, Cellvar)):", "    if isinstance(x, (Name, Varname)):", "Cellvar override survives while unused cells are dropped (R05.Z)")
 fire("C12", "code_data/_constants.py", "    if isinstance(value, frozenset):\n        return frozenset(map(from_constant, value))\n", "", "the original defect: the argument's frozensets (with tuple members) reach CodeType (R12.8)")
 silent(["C12", "C03"], "code_data/_constants.py", "        return frozenset(map(from_constant, value))\n", "        return frozenset(from_constant(v) for v in value)\n", "same copy as a generator expression")
+fire("C11", B, "            n_args_override = n_args if n_args != _instrsize(arg) else None\n", "            n_args_override = None\n", "the original defect: redundant prefixes of non-jumps forgotten (R11.W)")
+fire("C09", B, "            n_args_override = n_args if n_args != _instrsize(arg) else None\n", "            n_args_override = None\n", "same, under C09 (R09.W)")
+silent(["C11", "C09", "C01"], B, "            n_args_override = n_args if n_args != _instrsize(arg) else None\n", "            n_args_override = None if n_args == _instrsize(arg) else n_args\n", "same width rule, other way round")
